@@ -65,6 +65,10 @@ def run(F, R):
     # W5: a typed slice window built from a capability never extends past the capability's byte length (shared with C13.G5)
     from .C13 import g5_window_extent
     g5_window_extent(F, R, rule='W5')
+    # W6: later operations access only those windows: the PCI transport's config-space accessors admit an access only if
+    # offset + size_of::<T>() lies inside the device-config window (table shared with C13.G1)
+    from .C13 import g1_bounds
+    g1_bounds(F, RuleProxy(R, {'G1': 'W6'}, only=lambda inst: 'Pci' in inst))
 
 
 # ------------------------------------------------------------------------------------------------ W3
